@@ -478,12 +478,44 @@ class Check(Property):
             v.append(f"C10 define-path probe raised {type(exc).__name__}: {exc}")
         return v
 
+    def shared_cache_probe(self):
+        """one cache folder serving several definition sources (two line lists, a file and a line list, float and Fraction): every
+        registry means what ITS definitions say, cold and warm"""
+        import pint
+        v = []
+        A = ["foo = [length]", "baz = [time]", "bar = 2 foo", "qux = 5 foo"]
+        B = ["foo = [length]", "baz = [time]", "bar = 3 baz"]
+        C = ["foo = [length]", "baz = [time]", "bar = 7 foo", "quux = bar / baz"]
+        want = {"A": (2, "foo"), "B": (3, "baz"), "C": (7, "foo")}
+        try:
+            with tempfile.TemporaryDirectory(prefix="c10_sc_") as d:
+                cf = os.path.join(d, "cache")
+                fC = os.path.join(d, "c.txt")
+                open(fC, "w").write("\n".join(C) + "\n")
+                for rnd in ("cold", "warm"):
+                    for T in (float, Fraction):
+                        for name, src in (("A", A), ("B", B), ("C", fC), ("B", list(B)), ("A", tuple(A))):
+                            try:
+                                u = pint.UnitRegistry(src, cache_folder=cf, non_int_type=T)
+                                f, ru = u.get_root_units("bar")
+                                got = (Fraction(f).limit_denominator(1000), str(ru))
+                                ok_t = isinstance(u.Quantity("1.5 bar").magnitude, T)
+                            except Exception as exc:  # noqa: BLE001
+                                got, ok_t = type(exc).__name__, True
+                            if got != want[name] or not ok_t:
+                                v.append(f"C10 shared cache folder ({rnd}, {T.__name__}): the definitions {name} say bar = {want[name][0]} {want[name][1]}, "
+                                         f"the registry built from them answers {got}{'' if ok_t else ' (numeric type lost)'}")
+        except Exception as exc:  # noqa: BLE001
+            v.append(f"C10 shared-cache probe raised {type(exc).__name__}: {exc}")
+        return v[:6]
+
     def oracle(self, c):
         import pint
         v = []
         if not getattr(self, "_define_probe_done", False):
             self._define_probe_done = True
             v += self.define_path_probe()
+            v += self.shared_cache_probe()
         if c["kind"] == "pkey":
             # a prefix of the bundled files, as the independent reader sees its line: name, value, symbol ("_" = none), aliases
             P = regs.pools()
